@@ -1,6 +1,6 @@
 """Property -> rules mapping."""
 from .core import Ctx
-from .rules import k1, reclaim, schemes, seqlock, vyukov, harris, queues, deque, leftright, markedptr, progress
+from .rules import k1, reclaim, schemes, seqlock, vyukov, harris, queues, deque, leftright, markedptr, progress, typestate
 
 ALL_FILES = [".hpp"]
 RECL = ["reclamation/"]
@@ -203,10 +203,13 @@ def C18(ctx):
     ctx.only = ("K1.", "HP.slots", "HE.slots", "HE.exception-safety", "HP.block-init", "HE.block-init")
     k1_rules(ctx, "C18")
     scheme_rules(ctx)
+    ctx.only = ctx.only + ("K3.", "K13.")
+    typestate.rules(ctx, schemes=("hazard_pointer", "hazard_eras"))
     return ("Decides: slot allocation takes need_more_* only on the null-hint edge and dereferences the hint afterwards; the static strategies report "
             "exhaustion by throwing the documented exception on every path; released slots are re-linked into the hint list (HE only when the last guard "
             "of the era leaves); reset releases; a new hazard era is allocated before the shared one is given up (exception safety); adopted blocks rebuild "
-            "the free list; memory orders.", "'at least K simultaneously' as a count over all guard operation sequences")
+            "the free list; slot typestate of every guard member (slot held iff ptr non-null, no slot taken for an empty guard, consistent at every throwing "
+            "allocation) by path-sensitive abstract interpretation; memory orders.", "'at least K simultaneously' as a count over all guard operation sequences")
 
 
 def C12(ctx):
@@ -229,8 +232,11 @@ def C13(ctx):
 def C15(ctx):
     k1_rules(ctx, "C15")
     markedptr.rules(ctx)
+    typestate.rules(ctx)
     return ("Decides: marked_ptr round trip bit by bit for every mark width 1..32 and three upper/lower splits (abstract interpretation of the -O1 IR), "
-            "concurrent_ptr order pass-through (frozen as param:order in the contract table).",
+            "concurrent_ptr order pass-through (frozen as param:order in the contract table); guard_ptr typestate for all six schemes and all special members, "
+            "acquire, acquire_if_equal, reset, reclaim by path-sensitive abstract interpretation with symbolic nullness (protection units taken == change "
+            "of 'guard non-empty', moved-from guards end empty, 'return false' only with an empty guard).",
             "the snapshot claim of guard_ptr::acquire under a concurrent writer")
 
 
